@@ -174,10 +174,72 @@ Proof.
   rewrite HA. apply in_or_app. left. exact Hin.
 Qed.
 
+(* ------------------------------------------------------------------ the end of the output *)
+(* the text is empty, or a single line feed, or ends in a byte that is neither blank nor line feed, followed by at most one
+   line feed: no blank lines and no blanks at the end *)
+Definition end_ok (t : list Z) : Prop :=
+  t = [] \/ t = [NL] \/ exists a c, is_sp_nl c = false /\ (t = a ++ [c] \/ t = a ++ [c; NL]).
+
+Lemma not_sp_nl c : c <> SP -> c <> NL -> is_sp_nl c = false.
+Proof. intros H1 H2. unfold is_sp_nl. apply orb_false_iff. split; apply Z.eqb_neq; assumption. Qed.
+
+(* a non-empty run at the end of a tiling up to the end of the list: no earlier run reaches the end *)
+Lemma tiling_no_end_run A s ind e t r q : tiling ts q (A ++ [Trivia s ind e (t :: r)]) len -> no_end A.
+Proof.
+  intros Ht s1 ind1 r1 Hin. apply in_split in Hin. destruct Hin as (A1 & A2 & ->).
+  rewrite <- app_assoc in Ht. cbn [app] in Ht.
+  destruct (tiling_app_inv _ _ _ _ Ht) as (m & _ & Ht2). inversion Ht2; subst.
+  match goal with He : true = (_ =? _) |- _ => symmetry in He; apply Z.eqb_eq in He; rename He into Hend end.
+  match goal with Hr : tiling ts (s1 + zlen r1) (A2 ++ _) len |- _ => destruct (tiling_app_inv _ _ _ _ Hr) as (m2 & Ha & Hb) end.
+  apply tiling_mono in Ha. inversion Hb; subst. match goal with Hc : tiling ts _ [] len |- _ => apply tiling_mono in Hc end.
+  rewrite zlen_cons in *. pose proof (zlen_nonneg r). lia.
+Qed.
+
+Lemma separated_prefix A B : separated (A ++ B) -> separated A.
+Proof. intros H A1 s ind e t r B1 E. apply (H A1 s ind e t r (B1 ++ B)). rewrite E, <- app_assoc. reflexivity. Qed.
+
+Lemma codes_ok_prefix A B : codes_ok (A ++ B) -> codes_ok A.
+Proof. intros H i text Hin. apply (H i text). apply in_or_app. left. exact Hin. Qed.
+
+Lemma chunks_end_ok w cs : forall q, separated cs -> codes_ok cs -> tiling ts q cs len -> end_ok (chunks_text (fmt_spaces w) cs).
+Proof.
+  induction cs as [|c cs IH] using rev_ind; intros q Hsep Hok Ht; [left; reflexivity|].
+  rewrite chunks_text_app, chunks_text_one. destruct (tiling_app_inv _ _ _ _ Ht) as (m & Ht1 & Ht2).
+  destruct c as [s ind e [|t r] | i text]; cbn [chunk_text].
+  - rewrite fmt_spaces_nil, app_nil_r.
+    assert (m = len) by (inversion Ht2; subst; match goal with H : tiling ts _ [] _ |- _ => inversion H; subst end; change (zlen (@nil token)) with 0; lia).
+    subst m. exact (IH q (separated_prefix _ _ Hsep) (codes_ok_prefix _ _ Hok) Ht1).
+  - assert (He : e = true).
+    { inversion Ht2; subst. match goal with H : tiling ts _ [] _ |- _ => inversion H; subst end. lia. }
+    subst e. pose proof (tiling_no_end_run cs s ind true t r q Ht) as Hne.
+    assert (Hb : after_trivia false cs = false) by (apply (Hsep cs s ind true t r []); reflexivity).
+    destruct (chunk_lines_inv w (cs ++ [Trivia s ind true (t :: r)]) Hsep Hok cs [Trivia s ind true (t :: r)] eq_refl Hne) as [Ha _].
+    cbv zeta in Ha. specialize (Ha Hb). unfold fmt_spaces at 2.
+    destruct (fmt_run_end (mk_fcfg (s =? 0) true w ind) (run_code (t :: r)) eq_refl) as [E | [E | (a & c & Hc & [E | E])]]; rewrite E.
+    + rewrite app_nil_r. destruct Ha as [Ha | (t' & c & Et & Hc1 & Hc2)]; [left; exact Ha|].
+      right. right. exists t', c. split; [apply not_sp_nl; assumption | left; exact Et].
+    + destruct Ha as [Ha | (t' & c & Et & Hc1 & Hc2)]; [rewrite Ha; right; left; reflexivity|].
+      right. right. exists t', c. split; [apply not_sp_nl; assumption|]. right. rewrite Et, <- app_assoc. reflexivity.
+    + right. right. exists (chunks_text (fmt_spaces w) cs ++ a), c. split; [exact Hc|]. left. rewrite <- app_assoc. reflexivity.
+    + right. right. exists (chunks_text (fmt_spaces w) cs ++ a), c. split; [exact Hc|]. right. rewrite <- app_assoc. reflexivity.
+  - destruct (Hok i text) as [_ (t' & c & Et & Hc1 & Hc2)]; [apply in_or_app; right; left; reflexivity|].
+    right. right. exists (chunks_text (fmt_spaces w) cs ++ t'), c. split; [apply not_sp_nl; assumption|]. left. rewrite Et, app_assoc. reflexivity.
+Qed.
+
+(* no blank lines and no blanks at the end of the formatted program *)
+Theorem program_end w root e :
+  lua_parse ts = Ok (root, e) -> consumed ts e = true -> writable ts root = true -> codes_tidy ts = true ->
+  exists out, writer_text (fmt_spaces w) ts (view root) = Ok out /\ end_ok out.
+Proof.
+  intros Hp Hc Hw Ht. destruct (program_chunks root e Hp Hc Hw Ht) as (cs & Hcs & _ & Htil & Hsep & Hok & _).
+  exists (chunks_text (fmt_spaces w) cs). split; [unfold writer_text; rewrite Hcs; reflexivity|].
+  exact (chunks_end_ok w cs 0 Hsep Hok Htil).
+Qed.
+
 End L.
 
 (* ------------------------------------------------------------------ the nesting counter is the reference depth *)
-From PV Require Import Spec.FmtShape Spec.TokenDepth Proofs.WriterCursorD Proofs.TokenDepthProofs Proofs.AstWriterDepth.
+From PV Require Import Spec.FmtShape Spec.TokenDepth Proofs.WriterCursorD Proofs.TokenDepthProofs Proofs.AstWriterDepth Proofs.FmtLineEnd.
 
 Lemma lua_binops_neutral : forallb neutral_pat lua_binops = true.
 Proof. vm_compute. reflexivity. Qed.
@@ -188,17 +250,20 @@ Section LD.
 Variable ts : list token.
 Local Notation len := (zlen ts).
 
-(* every non-empty white-space run that ends before the end of the list ends at a significant token i and was passed
-   the indent token_depth ts i *)
-Theorem program_depth root e :
+(* program_depth, and: the run that reaches the end of the list is passed the indent 0 *)
+Theorem program_depth_full root e :
   lua_parse ts = Ok (root, e) -> consumed ts e = true -> writable ts root = true ->
-  no_short_else root = true -> no_trailing_sep root = true ->
+  no_trailing_sep root = true ->
   exists cs, writer_chunks ts (view root) = Ok (cs, len) /\
-    forall s ind at_end run, In (Trivia s ind at_end run) cs -> run <> [] -> s + zlen run < len ->
-      sigb ts (s + zlen run) = true /\ ind = token_depth ts (s + zlen run).
+    forall s ind at_end run, In (Trivia s ind at_end run) cs -> run <> [] ->
+      (s + zlen run < len ->
+       sigb ts (s + zlen run) = true /\ (existsb is_newline run = true -> ind = token_depth ts (s + zlen run))) /\
+      (s + zlen run = len -> ind = 0).
 Proof.
-  intros Hp Hc Hw Hse Hts.
+  intros Hp Hc Hw Hts.
   destruct (parse_shape ts lua_binops lua_unops lua_binops_nontrivia lua_unops_nontrivia root e Hp) as (He & Hsp & Hsh & fs & Hroot).
+  assert (Hfen : fenced ts root = true).
+  { pose proof (lua_parse_spec ts) as S. rewrite Hp in S. destruct S as (_ & _ & Hwf & _). exact (wf_fenced ts root e Hwf). }
   pose proof Hw as Hw0. unfold writable in Hw. repeat (apply andb_true_iff in Hw; destruct Hw as [Hw ?]).
   assert (Hdom : dom ts root = true) by (unfold dom; repeat (apply andb_true_iff; split); assumption).
   assert (HdomD : domD ts root = true) by (unfold domD; apply andb_true_iff; split; [apply andb_true_iff; split|]; assumption).
@@ -216,9 +281,24 @@ Proof.
   rewrite Hat. cbn [negb]. unfold seq. rewrite E1. unfold spaces_to. cbn [w_pos]. rewrite P1.
   unfold ntok. rewrite trailing_run by (first [lia | exact Hns]).
   eexists. split; [reflexivity|]. unfold rev'. rewrite <- rev_alt. cbn [w_out rev]. rewrite O1, rev_involutive.
-  intros s ind at_end run Hin Hne Hlt. apply in_app_or in Hin. destruct Hin as [Hin|[Hin|[]]].
-  - rewrite Forall_forall in G1. specialize (G1 _ Hin). cbn [goodD] in G1. destruct G1 as [G1|G1]; [contradiction | exact G1].
-  - exfalso. injection Hin as <- _ _ <-. rewrite trailing_run in Hlt by (first [lia | exact Hns]). lia.
+  intros s ind at_end run Hin Hne. apply in_app_or in Hin. destruct Hin as [Hin|[Hin|[]]].
+  - rewrite Forall_forall in G1. specialize (G1 _ Hin). cbn [goodD] in G1. destruct G1 as [G1|G1]; [contradiction|].
+    split; [intros _; exact G1|]. intros Heq. exfalso. destruct G1 as [G1 _]. apply sigb_range in G1. lia.
+  - injection Hin as <- <- _ <-. split; [|intros _; exact I1].
+    intros Hlt. exfalso. rewrite trailing_run in Hlt by (first [lia | exact Hns]). lia.
+Qed.
+
+(* every non-empty white-space run that ends before the end of the list ends at a significant token i and - if it holds a
+   newline token - was passed the indent token_depth ts i *)
+Theorem program_depth root e :
+  lua_parse ts = Ok (root, e) -> consumed ts e = true -> writable ts root = true ->
+  no_trailing_sep root = true ->
+  exists cs, writer_chunks ts (view root) = Ok (cs, len) /\
+    forall s ind at_end run, In (Trivia s ind at_end run) cs -> run <> [] -> s + zlen run < len ->
+      sigb ts (s + zlen run) = true /\ (existsb is_newline run = true -> ind = token_depth ts (s + zlen run)).
+Proof.
+  intros Hp Hc Hw Hts. destruct (program_depth_full root e Hp Hc Hw Hts) as (cs & Hcs & H). exists cs. split; [exact Hcs|].
+  intros s ind at_end run Hin Hne Hlt. exact (proj1 (H s ind at_end run Hin Hne) Hlt).
 Qed.
 
 
@@ -251,39 +331,102 @@ Proof.
     rewrite andb_true_r in Hsp. unfold is_sp in Hsp. apply Z.eqb_eq in Hsp. contradiction.
 Qed.
 
+(* a white-space chunk of a tiling holds tokens of the list, all of them white space / comments *)
+Lemma tiling_in A : forall q m s ind e run, tiling ts q A m -> In (Trivia s ind e run) A ->
+  forallb is_trivia run = true /\ forall t, In t run -> In t ts.
+Proof.
+  induction A as [|c A IH]; intros q m s ind e run Ht Hin; [destruct Hin|].
+  inversion Ht; subst.
+  - destruct Hin as [Hin|Hin]; [|eapply IH; eassumption]. injection Hin as <- <- <- <-.
+    split; [assumption|]. intros t Hin.
+    match goal with H : run0 = firstn _ _ |- _ => rewrite H in Hin end.
+    rewrite <- (firstn_skipn (Z.to_nat q) ts). apply in_or_app. right.
+    rewrite <- (firstn_skipn (length run0) (skipn (Z.to_nat q) ts)). apply in_or_app. left. exact Hin.
+  - destruct Hin as [Hin|Hin]; [discriminate Hin | eapply IH; eassumption].
+Qed.
+
+(* the run whose formatted text ends a prefix A of the chunk list in "line feed, blanks": it is the last non-empty chunk of A,
+   ends where A ends, carries last_ind, and its own text ends in that line feed and those blanks *)
+Lemma line_run w cs : separated cs -> codes_ok cs -> forall A B q0 m p q, cs = A ++ B -> tiling ts q0 A m -> no_end A ->
+  chunks_text (fmt_spaces w) A = p ++ NL :: q -> noNL q -> forallb is_sp q = true ->
+  exists s ind run p2, In (Trivia s ind false run) A /\ run <> [] /\ s + zlen run = m /\ last_ind None A = Some ind /\
+    fmt_spaces w s ind false run = p2 ++ NL :: q.
+Proof.
+  intros Hsep Hok. induction A as [|c A IH] using rev_ind; intros B q0 m p q Hcs Ht Hne Htxt Hq Hsp.
+  - destruct p; discriminate Htxt.
+  - rewrite <- app_assoc in Hcs. cbn [app] in Hcs.
+    assert (HneA : no_end A) by (intros s ind r Hin; apply (Hne s ind r); apply in_or_app; left; exact Hin).
+    destruct (tiling_app_inv ts _ _ _ _ Ht) as (m1 & Ht1 & Ht2).
+    rewrite chunks_text_app, chunks_text_one in Htxt. rewrite last_ind_app.
+    destruct c as [s ind e [|x run] | i text].
+    + cbn [chunk_text] in Htxt. rewrite fmt_spaces_nil, app_nil_r in Htxt.
+      assert (Em : m = m1).
+      { inversion Ht2; subst. match goal with H : tiling ts _ [] _ |- _ => inversion H; subst end. change (zlen (@nil token)) with 0. lia. }
+      subst m.
+      destruct (IH (Trivia s ind e [] :: B) q0 m1 p q Hcs Ht1 HneA Htxt Hq Hsp) as (s' & ind' & run' & p2 & Hin & Hr & Hm & Hl & Ho).
+      exists s', ind', run', p2. split; [apply in_or_app; left; exact Hin|]. split; [exact Hr|]. split; [exact Hm|]. split; [exact Hl | exact Ho].
+    + assert (Hb : after_trivia false A = false) by (apply (Hsep A s ind e x run B); exact Hcs).
+      assert (He : e = false).
+      { destruct e; [|reflexivity]. exfalso. apply (Hne s ind (x :: run)). apply in_or_app. right. left. reflexivity. }
+      subst e. cbn [chunk_text] in Htxt. set (o := fmt_spaces w s ind false (x :: run)) in *. set (t := chunks_text (fmt_spaces w) A) in *.
+      destruct (noNL_or_in o) as [Ho | Ho].
+      * exfalso. destruct (chunk_lines_inv w cs Hsep Hok A (Trivia s ind false (x :: run) :: B) Hcs HneA) as [IHa _]. cbv zeta in IHa. fold t in IHa.
+        assert (Hin : In NL (t ++ o)) by (rewrite Htxt; apply in_or_app; right; left; reflexivity).
+        apply in_app_or in Hin. destruct Hin as [Hin | Hin].
+        2:{ unfold noNL in Ho. rewrite Forall_forall in Ho. exact (Ho NL Hin eq_refl). }
+        apply (f_equal lastline) in Htxt. rewrite lastline_nl in Htxt by exact Hq. rewrite lastline_app_noNL in Htxt by exact Ho.
+        destruct (IHa Hb) as [Et | (t' & c0 & Et & Hc1 & Hc2)]; [rewrite Et in Hin; destruct Hin|].
+        rewrite Et in Htxt. unfold lastline in Htxt. rewrite (split_nl_app_noNL t' [c0]) in Htxt by (repeat constructor; exact Hc2).
+        rewrite last_last in Htxt. subst q. rewrite !all_sp_app in Hsp.
+        apply andb_true_iff in Hsp. destruct Hsp as [Hsp _]. apply andb_true_iff in Hsp. destruct Hsp as [_ Hsp].
+        cbn in Hsp. rewrite andb_true_r in Hsp. unfold is_sp in Hsp. apply Z.eqb_eq in Hsp. contradiction.
+      * destruct (last_nl_split o Ho) as (p2 & q2 & Eo & Hq2).
+        assert (Eq : q = q2).
+        { apply (f_equal lastline) in Htxt. rewrite lastline_nl in Htxt by exact Hq.
+          rewrite Eo, app_assoc, lastline_nl in Htxt by exact Hq2. symmetry. exact Htxt. }
+        subst q2.
+        assert (Em : s + zlen (x :: run) = m).
+        { inversion Ht2; subst. match goal with H : tiling ts _ [] _ |- _ => inversion H; subst end. reflexivity. }
+        exists s, ind, (x :: run), p2. split; [apply in_or_app; right; left; reflexivity|]. split; [discriminate|].
+        split; [exact Em|]. split; [reflexivity | exact Eo].
+    + exfalso. cbn [chunk_text] in Htxt.
+      destruct (Hok i text) as [_ (t' & c0 & Et & Hc1 & Hc2)]; [rewrite Hcs; apply in_or_app; right; left; reflexivity|].
+      rewrite Et, app_assoc in Htxt. symmetry in Htxt. exact (line_start_not_code _ _ _ _ Htxt Hc1 Hc2 Hsp).
+Qed.
+
 (* C10's indentation clause for whole programs: a code token i that begins a line of luafmt's output is preceded by
    exactly indentwidth x (reference depth at token i) spaces *)
 Theorem program_indent w root e :
   lua_parse ts = Ok (root, e) -> consumed ts e = true -> writable ts root = true -> codes_tidy ts = true ->
-  no_short_else root = true -> no_trailing_sep root = true ->
+  trivia_tidy ts = true -> no_trailing_sep root = true ->
   exists cs, writer_text (fmt_spaces w) ts (view root) = Ok (chunks_text (fmt_spaces w) cs) /\ codes_of cs = sig_codes ts 0 /\
     forall A i text B p q, cs = A ++ Code i text :: B ->
       chunks_text (fmt_spaces w) A = p ++ NL :: q -> noNL q -> forallb is_sp q = true ->
       sigb ts i = true /\ 0 <= token_depth ts i /\ q = repeat SP (Z.to_nat w * Z.to_nat (token_depth ts i)).
 Proof.
-  intros Hp Hc Hw Ht Hse Htr.
+  intros Hp Hc Hw Ht Htt Htr.
   destruct (program_chunks ts root e Hp Hc Hw Ht) as (cs & Hcs & Hcodes & Htil & Hsep & Hok & _ & Hne & Hind).
-  destruct (program_depth root e Hp Hc Hw Hse Htr) as (cs' & Hcs' & Hdep).
+  destruct (program_depth root e Hp Hc Hw Htr) as (cs' & Hcs' & Hdep).
   rewrite Hcs in Hcs'. injection Hcs' as <-.
   exists cs. split; [unfold writer_text; rewrite Hcs; reflexivity|]. split; [exact Hcodes|].
   intros A i text B p q HA Htxt Hq Hsp.
-  destruct (chunks_token_indent w cs A i text B p q HA Hsep Hok (Hne A i text B HA) Htxt Hq Hsp) as (ind & Hl & Hqq).
-  assert (Haft : after_trivia false A = true).
-  { destruct (after_trivia false A) eqn:Ea; [reflexivity|]. exfalso.
-    destruct (chunk_lines_inv w cs Hsep Hok A (Code i text :: B) HA (Hne A i text B HA)) as [H1 _].
-    cbv zeta in H1. destruct (H1 Ea) as [E0 | (t' & c & Et & Hc1 & Hc2)].
-    - rewrite E0 in Htxt. destruct p; discriminate Htxt.
-    - rewrite Et in Htxt. symmetry in Htxt. exact (line_start_not_code _ _ _ _ Htxt Hc1 Hc2 Hsp). }
   rewrite HA in Htil. destruct (tiling_app_inv ts _ _ _ _ Htil) as (m & HtA & HtB).
   assert (Hmi : m = i /\ i + 1 <= len).
   { inversion HtB; subst. match goal with H : tiling ts (_ + 1) B _ |- _ => apply tiling_mono in H end. split; [reflexivity | lia]. }
   destruct Hmi as [-> Hlt].
-  destruct (after_last A 0 i HtA Haft) as (s0 & ind0 & e0 & run0 & Hne0 & Hin0 & Hm0 & Hl0).
-  rewrite Hl in Hl0. injection Hl0 as <-.
-  assert (Hincs : In (Trivia s0 ind e0 run0) cs) by (rewrite HA; apply in_or_app; left; exact Hin0).
-  destruct (Hdep s0 ind e0 run0 Hincs Hne0 ltac:(lia)) as [Hsig Hd]. rewrite Hm0 in Hsig, Hd.
-  rewrite <- Hd. split; [exact Hsig|]. split; [|exact Hqq].
-  rewrite Forall_forall in Hind. exact (Hind _ Hincs).
+  destruct (line_run w cs Hsep Hok A (Code i text :: B) 0 i p q HA HtA (Hne A i text B HA) Htxt Hq Hsp)
+    as (s0 & ind & run0 & p2 & Hin0 & Hne0 & Hm0 & Hl0 & Ho).
+  assert (Hincs : In (Trivia s0 ind false run0) cs) by (rewrite HA; apply in_or_app; left; exact Hin0).
+  destruct (tiling_in A 0 i s0 ind false run0 HtA Hin0) as [Htriv Hsub].
+  assert (Hnl : existsb is_newline run0 = true).
+  { apply (tidy_run_newline w s0 ind run0 p2 q); [|exact Ho | exact Hq | exact Hsp].
+    apply Forall_forall. intros t Hin. unfold trivia_tidy in Htt. rewrite forallb_forall in Htt. specialize (Htt t (Hsub t Hin)).
+    rewrite forallb_forall in Htriv. rewrite (Htriv t Hin) in Htt. cbn [negb orb] in Htt.
+    apply orb_true_iff in Htt. destruct Htt as [Htt|Htt]; [left; exact Htt | right; apply negb_true_iff; exact Htt]. }
+  destruct (Hdep s0 ind false run0 Hincs Hne0 ltac:(lia)) as [Hsig Hd]. rewrite Hm0 in Hsig, Hd. specialize (Hd Hnl).
+  rewrite <- Hd. split; [exact Hsig|]. split.
+  - rewrite Forall_forall in Hind. exact (Hind _ Hincs).
+  - unfold fmt_spaces in Ho. exact (fmt_run_indent (mk_fcfg (s0 =? 0) false w ind) (run_code run0) p2 q eq_refl Ho Hq Hsp).
 Qed.
 
 
